@@ -2,13 +2,26 @@ import GoSup.Model.Planner
 /-!
 # Model of one cluster configuration update (`processConfigUpdate` / `executeActions`) (C16)
 
-`applyUpdate cur des fails` = plan (`buildPending`), stop phase (every entry to stop that has a
-runner is stopped and its runtime cleared), start phase (factory, run, readiness; a server whose
-factory fails or that never becomes ready is dropped from the entries), `commit`.  Effects are
-logged as `Eff`.  `fails id` says that id cannot be started (factory error or readiness timeout).
+`applyUpdate fate cur des next` = plan (`buildPending`), stop phase (`stopServers`: every entry to
+stop that has a runner is stopped and its runtime cleared), start phase (`startServers`: factory,
+run, readiness), `commit`.  `fate id` says what happens when the cluster tries to start id:
+
+* `.ok`          factory succeeds, `Run` is launched, the server becomes ready: the entry gets its runtime;
+* `.factoryErr`  `runnerFactory` returns an error: nothing was started, the entry is removed;
+* `.notReady`    the server is created and its `Run` launched but `waitForIsRunning` gives up: the
+                 instance is stopped again (`serverCancel(); runner.Stop()`) and the entry removed.
+
+Effects are logged as `Eff`; instances are numbered in the order of creation (`next`), a new
+runner object per `createAndStartServer` call.  `shutdown` is the update to the empty map
+(`Runner.shutdown`: `newEntries(empty)`, `buildPendingEntries`, `executeActions`, `commit`).
+`runCluster` is a whole `Run()`: any sequence of maps, each with its own fates (failures may be
+transient), then the shutdown.
 -/
 namespace GoSup.Cluster
 open GoSup.Planner
+
+inductive Fate where | ok | factoryErr | notReady
+  deriving DecidableEq, Repr
 
 inductive Eff where
   | stop (inst : Nat)                     -- Stop() called on a running instance and returned
@@ -21,30 +34,61 @@ structure Res where
   effects : List Eff
   next    : Nat
 
+def stopStep (acc : Entries × List Eff) (k : String) : Entries × List Eff :=
+  match get acc.1 k with
+  | some e => match e.runner with
+    | some inst => (clearRuntime acc.1 k, acc.2 ++ [.stop inst])
+    | none => acc
+  | none => acc
+
 def stopPhase (p : Entries) : Entries × List Eff :=
-  (toStop p).foldl (fun (acc : Entries × List Eff) k =>
-    match get acc.1 k with
-    | some e => match e.runner with
-      | some inst => (clearRuntime acc.1 k, acc.2 ++ [.stop inst])
-      | none => acc
-    | none => acc) (p, [])
+  (toStop p).foldl stopStep (p, [])
 
-def startPhase (fails : String → Bool) (p : Entries) (next : Nat) : Res :=
-  (toStart p).foldl (fun (acc : Res) k =>
-    match get acc.entries k with
-    | some e =>
-      if fails e.id then { acc with entries := removeEntry acc.entries k, effects := acc.effects ++ [.dropped e.id] }
-      else { entries := setRuntime acc.entries k acc.next, effects := acc.effects ++ [.start e.id e.cfg acc.next], next := acc.next + 1 }
-    | none => acc) { entries := p, effects := [], next := next }
+def startStep (fate : String → Fate) (acc : Res) (k : String) : Res :=
+  match get acc.entries k with
+  | some e =>
+    match fate e.id with
+    | .ok => { entries := setRuntime acc.entries k acc.next, effects := acc.effects ++ [.start e.id e.cfg acc.next], next := acc.next + 1 }
+    | .factoryErr => { acc with entries := removeEntry acc.entries k, effects := acc.effects ++ [.dropped e.id] }
+    | .notReady => { entries := removeEntry acc.entries k,
+                     effects := acc.effects ++ [.start e.id e.cfg acc.next, .stop acc.next, .dropped e.id], next := acc.next + 1 }
+  | none => acc
 
-def applyUpdate (fails : String → Bool) (cur : Entries) (des : List (String × Nat)) (next : Nat) : Res :=
+def startPhase (fate : String → Fate) (p : Entries) (next : Nat) : Res :=
+  (toStart p).foldl (startStep fate) { entries := p, effects := [], next := next }
+
+def applyUpdate (fate : String → Fate) (cur : Entries) (des : List (String × Nat)) (next : Nat) : Res :=
   let p := buildPending cur des
-  let (p1, e1) := stopPhase p
-  let r := startPhase fails p1 next
-  { entries := commit r.entries, effects := e1 ++ r.effects, next := r.next }
+  let s := stopPhase p
+  let r := startPhase fate s.1 next
+  { entries := commit r.entries, effects := s.2 ++ r.effects, next := r.next }
+
+/-- `Runner.shutdown`: the update to the empty map (no start can happen, the fates are irrelevant) -/
+def shutdown (cur : Entries) (next : Nat) : Res := applyUpdate (fun _ => .ok) cur [] next
 
 /-- the servers the cluster runs after an update: id, configuration, instance -/
 def running (m : Entries) : List (String × Nat × Nat) :=
   m.filterMap fun (_, e) => e.runner.map fun inst => (e.id, e.cfg, inst)
+
+/-- one processed configuration map: the desired configurations and what starting each id leads to this time -/
+structure Step where
+  des  : List (String × Nat)
+  fate : String → Fate
+
+/-- the event loop of `Run()` over any sequence of maps, accumulating all effects -/
+def runSteps (steps : List Step) (acc : Res) : Res :=
+  steps.foldl (fun a s =>
+    let r := applyUpdate s.fate a.entries s.des a.next
+    { entries := r.entries, effects := a.effects ++ r.effects, next := r.next }) acc
+
+/-- a whole `Run()`: boot with no servers, process the maps, shut down -/
+def runCluster (steps : List Step) : Res :=
+  let a := runSteps steps { entries := [], effects := [], next := 1 }
+  let r := shutdown a.entries a.next
+  { entries := r.entries, effects := a.effects ++ r.effects, next := r.next }
+
+/-- "started and not yet stopped", read off an effect log (every instance is created once) -/
+def Live (effs : List Eff) (i : Nat) : Prop :=
+  (∃ id c, Eff.start id c i ∈ effs) ∧ Eff.stop i ∉ effs
 
 end GoSup.Cluster
